@@ -207,6 +207,7 @@ def gen_text(raw_steps, line, meta, variant=(False, False, False)):
     info["artifact_gaps"] = {"source": json.dumps(art_gaps), "line": 0}
     info["exact_upto"] = {"source": str(upto), "line": 0}
     info["code_variant"] = {"source": "commit=%s insert=%s stamp_new=%s" % tuple(variant), "line": 0}
+    info["_gaps"] = {"orm": ["%s.%s" % g for g in orm_gaps], "artifact": ["%s.%s" % g for g in art_gaps]}
     return "\n".join(lines), info, parsed, orm, base, art_schema, upto
 
 
@@ -226,8 +227,9 @@ def regenerate(repo=None, meta=None):
     if old != text:
         with open(GEN, "w") as f:
             f.write(text)
+    gaps = info.pop("_gaps")
     return {"info": info, "raw": raw_steps, "parsed": parsed, "orm": orm, "base": base, "artifact": art, "meta": meta,
-            "exact_upto": upto, "variant": variant}
+            "exact_upto": upto, "variant": variant, "gaps": gaps}
 
 
 # ---------------------------------------------------------------------------
@@ -343,7 +345,7 @@ def gen_toy_cases(ctx):
     rng = ctx.rng
     thorough = ctx.tier == "thorough"
     cases = []
-    for _ in range(150 if not thorough else 1500):
+    for _ in range(120 if not thorough else 1500):
         steps = toy_steps(rng)
         schema = [["fit", ["id"] + rng.sample(TOY_COLS, rng.randint(0, 2))]]
         for t in TOY_TABLES[1:]:
@@ -441,7 +443,7 @@ def case_labels(c, n, upto=None):
 
 
 KNOWN_MISSING_MIGRATED = {"named_instance.instance_id"}
-KNOWN_MISSING_ARTIFACT = {"named_instance.instance_id", "dict.*", "compound.*", "function.*"}
+KNOWN_MISSING_ARTIFACT = {"named_instance.instance_id", "dict.*", "compound.*", "dict.id", "compound.id", "compound.compound_type"}
 
 
 def oracle_history(c, r, env):
@@ -653,16 +655,36 @@ def run(ctx):
         "(checked for the generated steps by vm_compute)",
         "C19_reaches_* are statements about the generated step list, ORM schema and the derived base schema (finite family: every prefix)",
     ]
+    import time
+    t0 = time.time()
+    timing = ctx.notes.setdefault("timing_s", {})
     # 1. translator
     env = None
     try:
         env = regenerate()
         ctx.translated = env["info"]
         ctx.obligation("translator:Gen.v", "translator", True, "%d steps, %d ORM tables" % (len(env["raw"]), len(env["orm"])))
+        # the generated gap lists make C19_reaches_orm_partial provable whatever the steps are: gaps beyond the
+        # recorded findings are a broken obligation (the oracle then looks for the concrete failing open)
+        known_k = len(env["parsed"]) + 1
+        for i, st in enumerate(env["parsed"]):
+            if ("rename", "object", "latent_variables_for_id", "latent_samples_for_id") in st:
+                known_k = i + 1
+        ctx.obligation("translator:exact_upto-is-the-recorded-finding", "translator", env["exact_upto"] >= known_k,
+                       "unstamped files are migrated exactly below revision %d (recorded finding: %d)" % (env["exact_upto"], known_k))
+        extra = sorted((set(env["gaps"]["orm"]) - KNOWN_MISSING_MIGRATED) | (set(env["gaps"]["artifact"]) - KNOWN_MISSING_ARTIFACT))
+        ctx.obligation("translator:orm-gaps-are-recorded-findings", "translator", not extra,
+                       "mapper columns not produced by the steps: %s" % (extra or env["gaps"]))
     except TranslationError as e:
         ctx.obligation("translator:Gen.v", "translator", False, str(e)[:800])
+    timing["translator"] = round(time.time() - t0, 1)
     # 2. proofs
+    t1 = time.time()
     built = ctx.build() if env else False
+    timing["build+audit"] = round(time.time() - t1, 1)
+    if env:
+        ctx.notes["code_variant"] = env["info"]["code_variant"]["source"]
+        ctx.notes["exact_upto"] = env["exact_upto"]
     if env is None:
         # fail closed, but still search for a failing input with whatever the runtime reports
         res = common.run_impl("c19_impl", {"mode": "meta"}, timeout=300)
@@ -688,7 +710,9 @@ def run(ctx):
         cases += gen_get_steps_cases(ctx, raw) + gen_history_cases(ctx, n, has_art) + gen_toy_cases(ctx)
     order = sorted(range(len(cases)), key=lambda i: (i % common.NCPU))
     chunks = chunk([cases[i] for i in order], common.NCPU)
+    t2 = time.time()
     outs = common.run_impl_parallel("c19_impl", [{"mode": "cases", "cases": ch} for ch in chunks], timeout=1500)
+    timing["implementation"] = round(time.time() - t2, 1)
     results = [None] * len(cases)
     pos = 0
     for ch, o in zip(chunks, outs):
@@ -740,7 +764,9 @@ def run(ctx):
     # 4. correspondence inside Coq
     if os.path.exists(os.path.join(common.COQ, "C19", "Model.vo")):
         hdr = ctx.header(["Syntax", "Gen", "Model"])
-        bad, log = ctx.eval_cases(hdr, "case", "check_case", coq_cases, shard=max(8, (len(coq_cases) + 2 * common.NCPU - 1) // (2 * common.NCPU)))
+        t3 = time.time()
+        bad, log = ctx.eval_cases(hdr, "case", "check_case", coq_cases, shard=max(8, (len(coq_cases) + common.NCPU - 1) // common.NCPU))
+        timing["correspondence"] = round(time.time() - t3, 1)
         for b in (bad or [])[:5]:
             i, oracle_failed = coq_idx[b]
             ctx.failure("correspondence", "model and implementation disagree on a %s case" % kind_of(cases[i]), cases[i],
